@@ -331,3 +331,30 @@ def c14_kernel_update(ctx, kernel, nsup, change):
     ctx.ensure(f"after update({change}) the evaluated model reproduces the currently prescribed values", bool(np.allclose(got, want, rtol=2e-3, atol=2e-3)))
     plain = K.BaseKernel.linear_combination(KI.kernel, sup.astype(np.float64), KI.supports.astype(np.float64), np.asarray(KI.interpolation_weights, dtype=np.float64))
     ctx.ensure("evaluation == plain kernel sum with the current weights", bool(np.allclose(got, plain, rtol=2e-3, atol=2e-3)))
+
+
+_FINE_LABELS = np.array([[0, 1, 0, 1, 2, 2], [1, 0, 1, 0, 2, 0], [3, 3, 0, 1, 0, 1], [3, 0, 3, 1, 1, 0]], dtype=np.uint8)
+
+
+@ob("C14.heterogeneous_history", cases=product_cases(first=((2, 3), (8, 12), (1, 2)), second=((4, 6), (2, 3))), mods=MODS, funcs=FUNCS, samples=(2, 4),
+    cite="label-wise (heterogeneous) models agree on every labelled region with the corresponding homogeneous model (whatever the model was applied to before)",
+    note="relational: a model that has served a signal at another resolution vs a fresh model (label maps are resized with the real cv2.resize on concrete labels; signals symbolic); "
+         "after seed C14_e: resized labels derived from the previously resized ones")
+def c14_heterogeneous_history(ctx, first, second):
+    lab = _FINE_LABELS
+    uniq = list(np.unique(lab))
+    s = np.array(ctx.reals("s", len(uniq), sample=(-2.0, 2.0)))
+    o = np.array(ctx.reals("o", len(uniq), sample=(-1.0, 1.0)))
+    used = darsia.HeterogeneousLinearModel(lab.copy(), scaling=s, offset=o)
+    fresh = darsia.HeterogeneousLinearModel(lab.copy(), scaling=s, offset=o)
+    y = ctx.array("y", first, sample=(-2.0, 3.0))
+    x = ctx.array("x", second, sample=(-2.0, 3.0))
+    used(y)
+    ctx.ensure(f"after a signal of shape {first}: result on a signal of shape {second} equals a fresh model's", eq(used(x), fresh(x)))
+    if second == lab.shape:
+        want = np.empty(lab.shape, dtype=object)
+        for i in np.ndindex(*lab.shape):
+            k = uniq.index(lab[i])
+            want[i] = s[k] * x[i] + o[k]
+        ctx.ensure("... and at the labels' own resolution it is the label-wise linear model", eq(used(x), want))
+    ctx.ensure("the label map handed to the constructor is not altered", bool(np.array_equal(used.labels, lab)))
